@@ -9,6 +9,8 @@ TB = ("Trusted base: the executable reference model and format interpreters unde
 
 FILE_TECH = "session simulation at the stream seams: generated files and history-made charts through read_file/write_file on a simulated file system (real io/codecs layers over a stub device: tiny buffers, short counts, platform defaults, stale destination, EIO/ENOSPC/close errors placed inside the op, retry after failure), judged by an independent reference interpreter of the format; write/read generation chains"
 CLAIMED = {
+ "C06": (FILE_TECH,
+         "Generated .qua documents (lanes 1..8, omitted StartTime/Multiplier/Bpm/KeySounds keys, empty sections, hits only, holds only, metadata strings that need YAML quoting, escaped or raw non-ASCII, flow/block style, CRLF) are installed and read; native charts and charts produced by every *ToQua converter from history-made sources are written, read back and written again. A normal return must agree with the reference interpretation: reads exact with the format defaults, written documents load with safe_load, use only the format's keys and value types (no NaN, integer lanes >= 1, list KeySounds) and denote the chart within 1 ms; generations do not drift; injected device errors may only make the call raise.", "§5 C06"),
  "C01": (FILE_TECH,
          "Generated v14 mania texts (key counts 1..18, x on both edges of a column, negative/large times, every hitsound field, values with ':' and non-ASCII, CRLF/LF) are installed in the simulated file system and read; charts built through histories are written, read back and written again. Whenever read_file/write_file returns normally the result must equal the reference interpretation of the bytes (reads exact, writes < 1 ms, later generations identical to the first), whatever the device did (1-byte buffers, short counts, cp1252/cp932 platform defaults, stale longer file); injected EIO/ENOSPC/close errors may only make the call raise, leave every chart untouched, and the retried call must succeed.", "§5 C01"),
  "C16": ("model-based session simulation: seeded op histories over aliased list handles, per-step refinement against a plain-sequence model",
